@@ -3,12 +3,13 @@ import GoCrypt.Driver.Parse
 import GoCrypt.Driver.Dispatch
 import GoCrypt.Driver.Base64
 import GoCrypt.Driver.Codec
+import GoCrypt.Driver.Scheme
 
 /-! Line-protocol driver: one operation per line in, one result line out. Core-only (links as an exe). -/
 
 open GoCrypt.Driver
 
-def handlers : List Handler := [pureHandler handleParse, handleDispatch, pureHandler handleBase64, handleCodec]
+def handlers : List Handler := [pureHandler handleParse, handleDispatch, pureHandler handleBase64, handleCodec, pureHandler handleScheme]
 
 def step (st : DState) (line : String) : DState × String :=
   let ws := (line.trimAscii.toString.splitOn " ").filter (· ≠ "")
